@@ -85,6 +85,10 @@ func checkC11(c *hx.Ctx) {
 		if r.Bool() {
 			d.Kid = "key-" + genID(r, "")
 		}
+		if i%2 == 0 {
+			d.ReuseSigners = true
+			c.Count("dids_with_reused_signer_objects")
+		}
 		d.Suffix = suffixOf(cr.Req, code)
 		built := []*BuiltOp{cr}
 		nOps := 2 + r.Intn(4)
@@ -228,8 +232,12 @@ func checkC11(c *hx.Ctx) {
 			}
 			p1.Patches = []string{"replace"}
 			p1.MaxDeltaSize, p1.MaxOperationSize = 700, 1500
-			pc = hx.NewClient(v, hx.NewVersion(p1, hx.VersionOpts{}))
+			pc = hx.NewClient(hx.NewVersion(p, hx.VersionOpts{ParserOpts: hx.StrictResolution()}), hx.NewVersion(p1, hx.VersionOpts{ParserOpts: hx.StrictResolution()}))
 			c.Count("chains_crossing_a_protocol_upgrade")
+		} else {
+			// resolution happens long after intake: a server-time / origin validator that now refuses everything must not
+			// matter for operations that are already anchored
+			pc = hx.NewClient(hx.NewVersion(p, hx.VersionOpts{ParserOpts: hx.StrictResolution()}))
 		}
 		var H []*ref.Op
 		for k, b := range built {
